@@ -15,6 +15,7 @@
 // summary: X <ids in the order the exporter received them> B <batch sizes> F <flush results in the order the calls returned>
 //          H <shutdown results> S <number of exporter Shutdown calls>   (leaks / double frees: ASan + LeakSanitizer)
 #include <memory>
+#include <unistd.h>
 #include <set>
 
 #include "sched/bufproxy.h"
@@ -517,7 +518,8 @@ void run_periodic(const std::vector<std::vector<Tok>> &secs, Out &o)
 // case  COMPOSE <trace|logs|metrics> | c <flushmask> <shutmask> | c .. | o <f|h> ..
 //   one "c" section per child (a SpanProcessor / LogRecordProcessor / MetricReader whose k-th ForceFlush resp. Shutdown
 //   call returns bit k of the mask, k counted from 0 and taken modulo 16); "o" = the provider-level calls, in order
-//   (f = ForceFlush, h = Shutdown); the provider is destroyed at the end ("d").  Everything is sequential.
+//   (f = ForceFlush, h = Shutdown; ft / ht = the same with a 500 us timeout while every child call takes 1.5 ms, so the
+//   caller's budget is used up after the first child); the provider is destroyed at the end ("d").  Everything is sequential.
 //   output (no event trace):  for each provider call  "f"|"h"|"d"  then for every child call made during it
 //   "<child> f|h <result>", then for f/h "= <provider result>".
 struct ChildScript
@@ -529,14 +531,21 @@ struct ComposeLog
 {
   std::vector<ChildScript> ch;
   Out *o = nullptr;
+  bool slow = false;  // inside an "ft"/"ht" call: every child call outlasts the caller's whole timeout
+  void delay()
+  {
+    if (slow) ::usleep(1500);
+  }
   bool flush(int i)
   {
+    delay();
     bool r = (ch[i].fm >> (ch[i].nf++ % 16)) & 1;
     o->num(i).tag("f").num(r);
     return r;
   }
   bool shut(int i)
   {
+    delay();
     bool r = (ch[i].hm >> (ch[i].nh++ % 16)) & 1;
     o->num(i).tag("h").num(r);
     return r;
@@ -597,8 +606,9 @@ void run_compose(const std::vector<std::vector<Tok>> &secs, Out &o)
   }
   const Tok &kind = secs[0][1];
   int n           = (int)L.ch.size();
-  std::function<bool()> do_flush, do_shut;
+  std::function<bool()> do_flush, do_shut, do_flush_t, do_shut_t;
   std::function<void()> do_destroy;
+  const std::chrono::microseconds short_timeout(500);
   std::unique_ptr<sdktrace::TracerProvider> tp;
   std::unique_ptr<sdklogs::LoggerProvider> lp;
   std::unique_ptr<opentelemetry::sdk::metrics::MeterProvider> mp;
@@ -609,6 +619,8 @@ void run_compose(const std::vector<std::vector<Tok>> &secs, Out &o)
     tp.reset(new sdktrace::TracerProvider(std::move(v)));
     do_flush   = [&] { return tp->ForceFlush(); };
     do_shut    = [&] { return tp->Shutdown(); };
+    do_flush_t = [&] { return tp->ForceFlush(short_timeout); };
+    do_shut_t  = [&] { return tp->Shutdown(short_timeout); };
     do_destroy = [&] { tp.reset(); };
   }
   else if (kind.is_tag("logs"))
@@ -618,6 +630,8 @@ void run_compose(const std::vector<std::vector<Tok>> &secs, Out &o)
     lp.reset(new sdklogs::LoggerProvider(std::move(v)));
     do_flush   = [&] { return lp->ForceFlush(); };
     do_shut    = [&] { return lp->Shutdown(); };
+    do_flush_t = [&] { return lp->ForceFlush(short_timeout); };
+    do_shut_t  = [&] { return lp->Shutdown(short_timeout); };
     do_destroy = [&] { lp.reset(); };
   }
   else
@@ -626,6 +640,8 @@ void run_compose(const std::vector<std::vector<Tok>> &secs, Out &o)
     for (int i = 0; i < n; i++) mp->AddMetricReader(std::shared_ptr<opentelemetry::sdk::metrics::MetricReader>(new ChildReader(L, i)));
     do_flush   = [&] { return mp->ForceFlush(); };
     do_shut    = [&] { return mp->Shutdown(); };
+    do_flush_t = [&] { return mp->ForceFlush(short_timeout); };
+    do_shut_t  = [&] { return mp->Shutdown(short_timeout); };
     do_destroy = [&] { mp.reset(); };
   }
   for (auto &t : ops)
@@ -640,6 +656,15 @@ void run_compose(const std::vector<std::vector<Tok>> &secs, Out &o)
     {
       o.tag("h");
       bool r = do_shut();
+      o.tag("=").num(r);
+    }
+    else if (t.is_tag("ft") || t.is_tag("ht"))
+    {
+      bool fl = t.is_tag("ft");
+      o.tag(fl ? "f" : "h");
+      L.slow = true;
+      bool r = fl ? do_flush_t() : do_shut_t();
+      L.slow = false;
       o.tag("=").num(r);
     }
   }
